@@ -140,6 +140,7 @@ func runQuad(t *simrt.Tape, rc *RunCtx) *Violation {
 	}
 	_, v := rc.Sim(prop, t, cfg, func() {
 		got = quad.Fixed(f, q.min, q.max, q.n, q.rule, q.conc)
+		log.close()
 	})
 	if v != nil {
 		return v
@@ -155,6 +156,10 @@ func runQuad(t *simrt.Tape, rc *RunCtx) *Violation {
 	}
 	if q.exact {
 		rc.probe("exact_arithmetic_instance", 1)
+	}
+	rc.oracle("no-evaluation-after-return")
+	if log.late > 0 {
+		return &Violation{prop, "quad/evaluation-after-return", fmt.Sprintf("%d evaluation(s) of f were running or started after Fixed had returned (concurrent=%d)", log.late, q.conc)}
 	}
 	// (b) documented number of calls, at the rule's locations, each once
 	rc.oracle("call-count")
